@@ -24,6 +24,8 @@ def configs(tier):
         add(spec('localp', 'localp', 2, 1, 3, order=1), 'load')
         add(spec('localp', 'localp', 3, 2, 2, order=2), 'load')
         for rule in ('semi-localp', 'localp-zero', 'localp-boundary'): add(spec('localp', rule, 3, 1, 2, order=1), 'load')   # sparse-Kronecker surplus path (>= 3 dims, complete hierarchy) per rule
+        for rule in LOCAL_RULES: add(spec('localp', rule, 3, 1, 2, order=2), 'load')   # the Vandermonde pattern of the Kronecker path depends on the order
+        add(spec('localp', 'localp-zero', 3, 1, 3, order=-1), 'load'); add(spec('localp', 'localp', 3, 1, 3, order=3), 'load')
         add(spec('localp', 'semi-localp', 2, 1, 3, order=2), 'load')
         add(spec('localp', 'localp-zero', 2, 1, 2, order=3), 'load')
         add(spec('localp', 'localp-boundary', 2, 1, 2, order=-1), 'load')
